@@ -119,7 +119,16 @@ func mixinDoc(d *D, idx int, cfg MixinCfg) O {
 	if sr := d.Subset([]string{"sa", "sb", "sc"}, 35); len(sr) > 0 {
 		a := A{}
 		for _, x := range sr {
-			a = append(a, O{x: A{}})
+			// scopes from a tiny pool: two requirements may name the same scheme with different scopes
+			sc := A{}
+			for _, v := range d.Subset([]string{"read", "write"}, 30) {
+				sc = append(sc, v)
+			}
+			req := O{x: sc}
+			if d.Pct(15) {
+				req["sz"] = A{}
+			}
+			a = append(a, req)
 		}
 		doc["security"] = a
 	}
